@@ -40,12 +40,18 @@ pub enum IOp {
     New(u8, i8),
     NewUnevaluated(u8, i8),
     EvaluateWith(u8),
+    /// `evaluate_with` using a different objective function g(x) = f(x) + 100: the value must become g(solution)
+    EvaluateWithOther(u8),
     SetObjective(u8),
     /// `solution_mut()` and write value v to coordinate 0
     MutWrite(u8, i8),
     /// `solution_mut()` without changing anything
     MutTouch(u8),
     Clone(u8, u8),
+    /// `Clone::clone_from` (slot j takes over slot i, reusing j's allocation)
+    CloneFrom(u8, u8),
+    /// `Vec::clone_from` / `clone_from_slice` of the whole collection onto a rotated copy of itself
+    VecCloneFrom,
     IntoSolutionRoundTrip(u8),
     /// read-only accessors on the whole collection
     AsSolutions,
@@ -85,21 +91,22 @@ impl Check for IndCheck {
     }
 }
 
-type M = Option<(Vec<f64>, bool)>;
+/// (solution, evaluated flag, offset of the objective function it was last evaluated with)
+type M = Option<(Vec<f64>, bool, f64)>;
 
 fn probe(inds: &[Option<Individual<RealP>>], model: &[M], at: &str) -> Result<(), Failure> {
     for (k, (i, m)) in inds.iter().zip(model).enumerate() {
         match (i, m) {
             (None, None) => {}
-            (Some(i), Some((sol, ev))) => {
+            (Some(i), Some((sol, ev, off))) => {
                 ensure_that!(i.solution() == sol, "C05 solution differs from the model", "{at}: slot {k} solution {:?}, model {sol:?}", i.solution());
                 ensure_that!(i.is_evaluated() == *ev, if *ev { "C05 individual lost its objective" } else { "C05 stale objective: individual still evaluated after its solution was handed out mutably" }, "{at}: slot {k}: is_evaluated() = {}, model says {ev}", i.is_evaluated());
                 let got = i.get_objective().map(|o| o.value());
-                let want = if *ev { Some(f(sol)) } else { None };
+                let want = if *ev { Some(f(sol) + off) } else { None };
                 ensure_that!(got == want, "C05 objective does not belong to the current solution", "{at}: slot {k}: get_objective() = {got:?}, f(solution) = {want:?}");
                 let r = catch(|| i.objective().value());
                 match (r, ev) {
-                    (Ok(v), true) => ensure_that!(v == f(sol), "C05 objective does not belong to the current solution", "{at}: slot {k}: objective() = {v}"),
+                    (Ok(v), true) => ensure_that!(v == f(sol) + off, "C05 objective does not belong to the current solution", "{at}: slot {k}: objective() = {v}"),
                     (Err(_), false) => {}
                     (Ok(v), false) => fail!("C05 objective() on an unevaluated individual", "{at}: slot {k}: objective() returned {v} for an unevaluated individual"),
                     (Err(p), true) => fail!("C05 objective() panics on an evaluated individual", "{at}: slot {k}: {p}"),
@@ -122,19 +129,60 @@ fn ind_oracle(ops: &[IOp], cl: &mut u64) -> Result<(), Failure> {
                 let i = *i as usize % SLOTS;
                 let sol = vec![*v as f64, 0.5];
                 inds[i] = Some(Individual::new(sol.clone(), obj(&sol)));
-                model[i] = Some((sol, true));
+                model[i] = Some((sol, true, 0.0));
             }
             IOp::NewUnevaluated(i, v) => {
                 let i = *i as usize % SLOTS;
                 let sol = vec![*v as f64, 0.5];
                 inds[i] = Some(Individual::new_unevaluated(sol.clone()));
-                model[i] = Some((sol, false));
+                model[i] = Some((sol, false, 0.0));
             }
             IOp::EvaluateWith(i) => {
                 let i = *i as usize % SLOTS;
                 if let (Some(ind), Some(m)) = (&mut inds[i], &mut model[i]) {
                     ind.evaluate_with(|s| obj(s));
                     m.1 = true;
+                    m.2 = 0.0;
+                }
+            }
+            IOp::EvaluateWithOther(i) => {
+                let i = *i as usize % SLOTS;
+                if let (Some(ind), Some(m)) = (&mut inds[i], &mut model[i]) {
+                    ind.evaluate_with(|s| SingleObjective::try_from(f(s) + 100.0).unwrap());
+                    m.1 = true;
+                    m.2 = 100.0;
+                }
+            }
+            IOp::CloneFrom(i, j) => {
+                let (i, j) = (*i as usize % SLOTS, *j as usize % SLOTS);
+                if i != j {
+                    if let Some(src) = inds[i].clone() {
+                        if model[j].as_ref().map_or(false, |m| m.1) && !model[i].as_ref().map_or(false, |m| m.1) {
+                            *cl |= 4;
+                        }
+                        match &mut inds[j] {
+                            Some(t) => t.clone_from(&src),
+                            None => inds[j] = Some(src.clone()),
+                        }
+                        model[j] = model[i].clone();
+                    }
+                }
+            }
+            IOp::VecCloneFrom => {
+                let src: Vec<Individual<RealP>> = inds.iter().flatten().cloned().collect();
+                if src.len() >= 2 {
+                    let mut rotated = src.clone();
+                    rotated.rotate_left(1);
+                    let mut a = rotated.clone();
+                    a.clone_from(&src);
+                    let mut b = rotated.clone();
+                    b.clone_from_slice(&src);
+                    for (k, (x, y)) in a.iter().zip(&src).enumerate() {
+                        ensure_that!(x == y && x.is_evaluated() == y.is_evaluated(), "C05 Vec::clone_from does not keep solution and objective together", "{at}: position {k}: {:?}/{:?} vs source {:?}/{:?}", x.solution(), x.get_objective(), y.solution(), y.get_objective());
+                    }
+                    for (k, (x, y)) in b.iter().zip(&src).enumerate() {
+                        ensure_that!(x == y && x.is_evaluated() == y.is_evaluated(), "C05 clone_from_slice does not keep solution and objective together", "{at}: position {k}: {:?}/{:?} vs source {:?}/{:?}", x.solution(), x.get_objective(), y.solution(), y.get_objective());
+                    }
                 }
             }
             IOp::SetObjective(i) => {
@@ -144,6 +192,7 @@ fn ind_oracle(ops: &[IOp], cl: &mut u64) -> Result<(), Failure> {
                     let was = ind.set_objective(o);
                     ensure_that!(was == m.1, "C05 set_objective reports the wrong previous state", "{at}: returned {was}, model {}", m.1);
                     m.1 = true;
+                    m.2 = 0.0;
                 }
             }
             IOp::MutWrite(i, v) => {
@@ -247,12 +296,10 @@ fn ind_oracle(ops: &[IOp], cl: &mut u64) -> Result<(), Failure> {
             }
             IOp::Best => {
                 let v: Vec<Individual<RealP>> = inds.iter().flatten().filter(|i| i.is_evaluated()).cloned().collect();
-                let want = model.iter().flatten().filter(|m| m.1).map(|m| f(&m.0)).fold(None, |acc: Option<f64>, x| Some(acc.map_or(x, |a| a.min(x))));
+                let want = model.iter().flatten().filter(|m| m.1).map(|m| f(&m.0) + m.2).fold(None, |acc: Option<f64>, x| Some(acc.map_or(x, |a| a.min(x))));
                 let got = v.best_individual().map(|i| i.objective().value());
                 ensure_that!(got == want, "C05 best_individual", "{at}: {got:?} vs {want:?}");
-                if let Some(b) = v.best_individual() {
-                    ensure_that!(b.objective().value() == f(b.solution()), "C05 objective does not belong to the current solution", "{at}: best_individual returned a stale pair");
-                }
+
             }
             IOp::IntoIndividuals(i) => {
                 let i = *i as usize % SLOTS;
@@ -278,6 +325,9 @@ fn iop_strategy() -> impl Strategy<Value = IOp> {
         3 => (s.clone(), -3i8..4).prop_map(|(i, v)| IOp::New(i, v)),
         1 => (s.clone(), -3i8..4).prop_map(|(i, v)| IOp::NewUnevaluated(i, v)),
         2 => s.clone().prop_map(IOp::EvaluateWith),
+        1 => s.clone().prop_map(IOp::EvaluateWithOther),
+        2 => (s.clone(), s.clone()).prop_map(|(i, j)| IOp::CloneFrom(i, j)),
+        1 => Just(IOp::VecCloneFrom),
         1 => s.clone().prop_map(IOp::SetObjective),
         3 => (s.clone(), -3i8..4).prop_map(|(i, v)| IOp::MutWrite(i, v)),
         2 => s.clone().prop_map(IOp::MutTouch),
@@ -298,6 +348,10 @@ fn iop_alphabet() -> Vec<IOp> {
         IOp::New(1, 2),
         IOp::NewUnevaluated(0, 3),
         IOp::EvaluateWith(0),
+        IOp::EvaluateWithOther(0),
+        IOp::CloneFrom(0, 1),
+        IOp::CloneFrom(1, 0),
+        IOp::VecCloneFrom,
         IOp::SetObjective(0),
         IOp::MutWrite(0, -1),
         IOp::MutTouch(0),
@@ -593,7 +647,7 @@ fn comp_oracle(c: &CompCase, cl: &mut u64) -> Result<(), Failure> {
 }
 
 pub fn run_all(ctx: &mut Ctx, replay: Option<&Path>) {
-    ctx.rule("(a) individual-level: histories of new/new_unevaluated/evaluate_with/set_objective/solution_mut (with and without a change)/clone/into_solution/as_solutions/as_solutions_mut/into_single(_ref)/best_individual/into_individuals/moves through the population stack over 3 slots against an evaluated-flag model, probing is_evaluated/get_objective/objective()/solution after every step; non-trivial = solution_mut on an evaluated individual followed by a read. (b) run-level: every shipped template with valid parameters; after EVERY component execution every individual reachable in any scope (population stack, best-so-far, archive, swarm and molecule memories) that is evaluated must carry bit-exactly f(solution); non-trivial = run with >= 3 passes in which some step changed a solution. (c) component-level: 34 shipped components on prepared evaluated populations, same audit; distinct by case");
+    ctx.rule("(a) individual-level: histories of new/new_unevaluated/evaluate_with (two different objective functions)/set_objective/solution_mut (with and without a change)/clone/clone_from/Vec::clone_from/clone_from_slice/into_solution/as_solutions/as_solutions_mut/into_single(_ref)/best_individual/into_individuals/moves through the population stack over 3 slots against an evaluated-flag model, probing is_evaluated/get_objective/objective()/solution after every step; non-trivial = solution_mut on an evaluated individual followed by a read. (b) run-level: every shipped template with valid parameters; after EVERY component execution every individual reachable in any scope (population stack, best-so-far, archive, swarm and molecule memories) that is evaluated must carry bit-exactly f(solution); non-trivial = run with >= 3 passes in which some step changed a solution. (c) component-level: 34 shipped components on prepared evaluated populations, same audit; distinct by case");
     ctx.assume("the harness objective is a pure function of the solution; set_objective is only used with f(solution)");
     let i = IndCheck;
     let c = CompCheck;
@@ -611,7 +665,7 @@ pub fn run_all(ctx: &mut Ctx, replay: Option<&Path>) {
     ctx.regressions(&i);
     ctx.regressions(&c);
     let l = ctx.tier.pick(4, 5);
-    ctx.exhaustive(&i, &format!("all histories of length <= {l} over a 14-operation alphabet on two slots"), crate::props::c01::Shortlex::new(iop_alphabet(), l));
+    ctx.exhaustive(&i, &format!("all histories of length <= {l} over an 18-operation alphabet on two slots"), crate::props::c01::Shortlex::new(iop_alphabet(), l));
     ctx.random(&i, proptest::collection::vec(iop_strategy(), 0..60), ctx.tier.pick(5000, 50_000));
     ctx.random(&c, (0u8..N_COMPONENTS, 0u8..9, 0u8..5, any::<u64>()).prop_map(|(which, size, dim, seed)| CompCase { which, size, dim, seed }), ctx.tier.pick(6000, 60_000));
     let per = ctx.tier.pick(60, 600);
